@@ -150,6 +150,11 @@ func c11Gen(r *vRand, idx int) *c11Grammar {
 		}
 	}
 	nr := 1 + r.Intn(4)
+	if withClass && r.Intn(2) == 0 {
+		// a constant rule of which the (class) rule matches a proper prefix only: it is an ordinary
+		// token, not a keyword of the class
+		add("PFX", c11Lit([]string{"ab 0", "a b", "0_ a", "A0 ab"}[r.Intn(4)]), 0, allSC, false, -1)
+	}
 	for k := 0; k < nr; k++ {
 		var scs []int
 		for sc := 0; sc < g.nsc; sc++ {
